@@ -31,6 +31,7 @@ ENV.update({"GOFLAGS": "-mod=mod", "GOPROXY": "off", "GOSUMDB": "off", "GOTOOLCH
 # runs per tier: (quick, thorough); per-run watchdog seconds; worker GOMAXPROCS
 PLAN = {
     "C05": dict(quick=20000, thorough=1500000, timeout=60),
+    "C27": dict(quick=20000, thorough=1000000, timeout=60),
 }
 DEFAULT_PLAN = dict(quick=200, thorough=5000, timeout=120)
 
